@@ -588,7 +588,9 @@ CurPos(st) == IF st.cur.name = <<MINUS>> THEN st.stdinpos ELSE st.cur.pos
 \* Standard input read both by the main loop and through getline < "-" is outside the model (the two readers
 \* buffer independently, so how the records are divided between them depends on read sizes).
 OpenSource(st, name) ==
-  IF name = <<MINUS>> /\ st.dashUsed THEN Halt(st, "bad")
+  \* ... and so is a second "-" operand while records of standard input that the first one left unread (nextfile)
+  \* may sit in the abandoned reader's buffer: whether they are seen again depends on read sizes
+  IF name = <<MINUS>> /\ (st.dashUsed \/ (st.mainStdin /\ st.stdinpos <= Len(st.stdin))) THEN Halt(st, "bad")
   ELSE
   [st EXCEPT !.cur = [open |-> TRUE, name |-> name, pos |-> 1], !.hadFiles = TRUE,
              !.mainStdin = @ \/ name = <<MINUS>>,
